@@ -29,7 +29,7 @@ func vhNewWorld() *vhWorld {
 	identity.VHReset()
 	w := &vhWorld{r: vrepo.New()}
 	w.alice = identity.VHStoreIdentity(w.r, "alice", 1, true, "")
-	w.bob = identity.VHStoreIdentity(w.r, "bob", 1, true, "")
+	w.bob = identity.VHStoreIdentityMeta(w.r, "bob", 1, true, "", map[string]string{"gitlab-id": "7", "gitlab-login": "bob"})
 	_ = w.r.LocalConfig().StoreString("git-bug.identity", w.alice.Id().String())
 	return w
 }
